@@ -44,7 +44,13 @@ class Monitors:
     def attach(self, owner, name, pre=None, post=None, label=None):
         """pre(args, kwargs) -> token ; post(token, args, kwargs, result, exc)"""
         label = label or "%s.%s" % (getattr(owner, "__name__", owner), name)
-        raw = owner.__dict__[name] if isinstance(owner, type) else getattr(owner, name)
+        try:
+            raw = owner.__dict__[name] if isinstance(owner, type) else getattr(owner, name)
+        except (KeyError, AttributeError):
+            # the function no longer exists under this name (refactoring): the monitor observes
+            # nothing, which the evaluation counters show; it is not an alarm
+            self.count(label + ":unavailable")
+            return None
         kind = None
         func = raw
         if isinstance(raw, staticmethod):
@@ -101,6 +107,14 @@ class Monitors:
         setattr(owner, name, new)
         self._attached.append((owner, name, raw))
         return wrapper
+
+    def attach_path(self, module, clsname, name, pre=None, post=None, label=None):
+        """attach to module.<clsname>.<name>; tolerant of a class that no longer exists"""
+        owner = getattr(module, clsname, None)
+        if owner is None:
+            self.count((label or "%s.%s" % (clsname, name)) + ":unavailable")
+            return None
+        return self.attach(owner, name, pre=pre, post=post, label=label)
 
     def detach_all(self):
         for owner, name, raw in reversed(self._attached):
